@@ -12,6 +12,7 @@ import (
 	"sort"
 	"strconv"
 	"strings"
+	"unicode"
 
 	"golang.org/x/tools/go/ssa"
 )
@@ -385,6 +386,12 @@ func init() {
 			}
 			return false, true
 		},
+		"unicode.ToLower": func(fr *frame, args []value) (value, bool) {
+			return asciiCase(args[0], true)
+		},
+		"unicode.ToUpper": func(fr *frame, args []value) (value, bool) {
+			return asciiCase(args[0], false)
+		},
 		"math.Float64bits": func(fr *frame, args []value) (value, bool) {
 			return math.Float64bits(args[0].(float64)), true
 		},
@@ -426,4 +433,40 @@ func countByte(bs []value, c value) value {
 		}
 	}
 	return n
+}
+
+// asciiCase summarises unicode.ToLower / ToUpper on a symbolic rune: one fork
+// on r <= 0x7F; the ASCII side is a closed formula (validated exhaustively
+// against the native function in init below), the other side is left to the
+// interpreted library code.
+func asciiCase(v value, lower bool) (value, bool) {
+	s, ok := v.(sym)
+	if !ok {
+		return nil, false
+	}
+	p := s.t.P
+	if !p.ex.Decide(p.Bin(OpSle, s.t, p.Const(32, 0x7F))) {
+		return nil, false
+	}
+	lo, hi, delta := uint64('A'), uint64('Z'), uint64(32)
+	if !lower {
+		lo, hi, delta = 'a', 'z', uint64(0xFFFFFFE0)
+	}
+	in := p.And(p.Bin(OpSle, p.Const(32, lo), s.t), p.Bin(OpSle, s.t, p.Const(32, hi)))
+	return norm(p.Ite(in, p.Bin(OpAdd, s.t, p.Const(32, delta)), s.t), s.k), true
+}
+
+func init() {
+	for r := rune(-2); r < 128; r++ {
+		wantL, wantU := r, r
+		if 'A' <= r && r <= 'Z' {
+			wantL = r + 32
+		}
+		if 'a' <= r && r <= 'z' {
+			wantU = r - 32
+		}
+		if unicode.ToLower(r) != wantL || unicode.ToUpper(r) != wantU {
+			panic("asciiCase summary disagrees with package unicode")
+		}
+	}
 }
